@@ -7,6 +7,7 @@ import (
 	"golang.org/x/tools/go/ssa"
 
 	"wtfverif/checker/internal/load"
+	"wtfverif/checker/internal/maporder"
 	"wtfverif/checker/internal/symx"
 )
 
@@ -43,4 +44,24 @@ func DumpSymx(p *load.Program, spec string) {
 		}
 	}
 	dump(fn)
+}
+
+// DumpMapOrder prints the classification of every map range loop of the module.
+func DumpMapOrder(p *load.Program) {
+	sx := symx.New(p.IsRepoFunc)
+	for _, fn := range p.RepoFuncs() {
+		for _, l := range maporder.Classify(fn, sx) {
+			fmt.Printf("%s  range %s  at %s\n", load.FuncKey(fn), sx.Of(fn).Plain(l.L.Over), p.Pos(l.Pos()))
+			for _, e := range l.Effects {
+				n := ""
+				if e.Neutralised {
+					n = " [neutralised: " + e.How + "]"
+				}
+				fmt.Printf("     %s %s%s\n", e.Kind, e.Detail, n)
+			}
+			for _, n := range l.Notes {
+				fmt.Printf("     ok  %s\n", n)
+			}
+		}
+	}
 }
